@@ -697,7 +697,19 @@ func (n *Node) cbGetVerified() []dbft.Transaction[Hash] {
 	max := n.s.sc.MaxTxPerBlock
 	out := make([]dbft.Transaction[Hash], 0, max)
 	var hs []Hash
-	if max > 0 && !n.hidePool {
+	hide := n.hidePool
+	if sc := n.s.sc; sc.EvictPM > 0 && n.st != nil && !hide {
+		// the verified pool promises no repeatable reads: what one read returned may be gone
+		// (replaced, expired) at the next read inside the same library call
+		for _, o := range n.st.Outs {
+			if o.Kind == OGetVerified && len(o.Hashes) > 0 {
+				hide = true
+				n.s.fault("pool_emptied_between_two_reads_in_one_call")
+				break
+			}
+		}
+	}
+	if max > 0 && !hide {
 		for _, tx := range sortedHashes(n.pool) {
 			if tx.Invalid && !n.s.sc.PoolHoldsInvalid {
 				continue // the verified pool normally holds no invalid transactions
